@@ -296,7 +296,7 @@ func ruleCL2(c *Ctx) []*Ob {
 			}
 			// every cycle Wait -> Wait evaluates isClosed
 			again := false
-			walk(after(i), walkOpts{
+			walk(after(i), walkOpts{noInline: true,
 				visit: func(j ssa.Instruction, t *tracker) bool {
 					if j == i {
 						again = true
@@ -465,6 +465,17 @@ func ruleCL4(c *Ctx) []*Ob {
 func isLenOfTopA(v ssa.Value, fTop *types.Var) bool {
 	call, ok := v.(*ssa.Call)
 	if !ok {
+		return false
+	}
+	// a size measure computed by a segmentStack method on the top stack (e.g. top.height())
+	if h := call.Call.StaticCallee(); h != nil && h.Signature.Recv() != nil && typeName(h.Signature.Recv().Type()) == "segmentStack" && len(call.Call.Args) > 0 {
+		if bt, isB := h.Signature.Results().At(0).Type().Underlying().(*types.Basic); h.Signature.Results().Len() == 1 && isB && bt.Info()&types.IsInteger != 0 {
+			for _, og := range origins(call.Call.Args[0]) {
+				if fs, _ := loadedField(og); fs == fTop {
+					return true
+				}
+			}
+		}
 		return false
 	}
 	bi, ok := call.Call.Value.(*ssa.Builtin)
